@@ -12,7 +12,10 @@ Nothing here models exactly_lib.  The recorder stands in for the `subprocess` mo
 
 The recorder records (args, shell, text readable from stdin, os.getcwd(), env, timeout, any
 extra keyword), lets a `behaviour` callable (the "child") choose what is written to stdout /
-stderr and which code is returned (or which exception is raised).
+stderr and which code is returned (or which exception is raised).  Like a real child it reads
+and writes THROUGH THE FILE DESCRIPTORS (os.read / os.write at the current offset), not through
+the parent's file objects: text the parent has written to a file object but not flushed is not
+in the file yet when the child writes.
 """
 import os
 import pathlib
@@ -50,6 +53,41 @@ class Child:
         self.read_file_arg = read_file_arg  # index of an argv element that is a file to be read (source interpreter)
 
 
+def _fileno(f):
+    try:
+        return f.fileno()
+    except (AttributeError, OSError, ValueError):
+        return None
+
+
+def _write_through_descriptor(f, text: str):
+    """A child process writes to the DESCRIPTOR it inherits, at the current offset of the open file
+    description - it knows nothing of what the parent's file OBJECT still holds in its buffer.
+    (Objects without a descriptor - in-memory files - are written at Python level.)"""
+    fd = _fileno(f)
+    if fd is None:
+        f.write(text)
+        return
+    data = text.encode(getattr(f, 'encoding', None) or 'utf-8')
+    while data:
+        n = os.write(fd, data)
+        data = data[n:]
+
+
+def _read_through_descriptor(f) -> str:
+    """A child process reads its stdin from the descriptor, from the current offset, until EOF."""
+    fd = _fileno(f)
+    if fd is None:
+        return f.read()
+    chunks = []
+    while True:
+        b = os.read(fd, 65536)
+        if not b:
+            break
+        chunks.append(b)
+    return b''.join(chunks).decode(getattr(f, 'encoding', None) or 'utf-8')
+
+
 class Recorder:
     """Stands in for the `subprocess` module inside process_executor."""
     DEVNULL = _real_subprocess.DEVNULL
@@ -66,7 +104,7 @@ class Recorder:
     def call(self, args, stdin=None, stdout=None, stderr=None, env=None, timeout=None, shell=False, **extra):
         stdin_text = None
         if stdin is not None and hasattr(stdin, 'read'):
-            stdin_text = stdin.read()
+            stdin_text = _read_through_descriptor(stdin)
         c = Call(args, shell, stdin_text, stdin, stdout, stderr, os.getcwd(), env, timeout, dict(extra))
         self.calls.append(c)
         child = self.behaviour(c)
@@ -80,9 +118,9 @@ class Recorder:
         if child.raises is not None:
             raise child.raises
         if stdout is not None and hasattr(stdout, 'write'):
-            stdout.write(child.out)
+            _write_through_descriptor(stdout, child.out)
         if stderr is not None and hasattr(stderr, 'write'):
-            stderr.write(child.err)
+            _write_through_descriptor(stderr, child.err)
         return child.code
 
     # anything else the real module offers is not part of the contract
@@ -262,3 +300,26 @@ def list_symbol(values: Sequence[str]):
     from exactly_lib.symbol.value_type import ValueType
     from exactly_lib.type_val_deps.types.list_ import list_sdvs
     return SymbolContainer(list_sdvs.from_str_constants(list(values)), ValueType.LIST, None)
+
+
+# ----------------------------------------------------------------------------- selector-only kernels
+
+class _Null:
+    def __enter__(self):
+        return self
+
+    def __exit__(self, *a):
+        return False
+
+
+def no_tracing():
+    """Context in which CrossHair's tracer is suspended (no-op outside CrossHair).  Only for blocks in which
+    every value is concrete (selectors already made concrete by ob.pick / ob.concrete_*): the real code then
+    runs natively on concrete data; the solver's part is the exhaustive enumeration of the selector space."""
+    try:
+        from crosshair.tracers import NoTracing, is_tracing
+    except ImportError:
+        return _Null()
+    if not is_tracing():
+        return _Null()
+    return NoTracing()
